@@ -512,8 +512,21 @@ class BaseART(BaseEstimator, ClusterMixin):
         assert len(self.W) >= 0, "ART module is not fit."
 
         T, _ = zip(*[self.category_choice(x, w, params=self.params) for w in self.W])
-        c_ = int(np.argmax(T))
+        c_ = self._first_max(T)
         return c_
+
+    @staticmethod
+    def _first_max(T) -> int:
+        """Index of the first largest activation.
+
+        NaN activations are ignored, as in the training search (np.argmax would
+        return the first NaN).
+
+        """
+        T = np.asarray(T, dtype=float)
+        if np.all(np.isnan(T)):
+            return 0
+        return int(np.nanargmax(T))
 
     def pre_step_fit(self, X: np.ndarray):
         """Undefined function called prior to each sample fit. Useful for cluster
